@@ -766,6 +766,38 @@ func main() {
 		evs := genEvents(r, c)
 		rn.runCase(i, c, evs, root)
 	}
+	// crowd histories: one sequence is retried while more than a thousand other sequences pass through the
+	// same processor / plugin for the first time (whatever is kept per sequence is shared by all of them)
+	clo, chi := args.Share(args.Pick(16, 240))
+	for i := clo; i < chi; i++ {
+		r := args.CaseRand(5_000_000 + i)
+		mode := "flows"
+		if i%2 == 1 {
+			mode = "policy"
+		}
+		c := genCfg(r, mode)
+		c.CooldownS, c.Mult = 0, 0
+		var matching int
+		for _, st := range statuses {
+			if c.matches(st) {
+				matching = st
+			}
+		}
+		var evs []event
+		crowd := r.Range(1100, 1700)
+		split := r.Range(1, c.Attempts) // victim responses before the crowd
+		for k := 0; k < split; k++ {
+			evs = append(evs, event{Seq: 0, Status: matching})
+		}
+		for j := 0; j < crowd; j++ {
+			evs = append(evs, event{Seq: 1000 + j, Status: matching})
+		}
+		for k := 0; k < c.Attempts+2; k++ {
+			evs = append(evs, event{Seq: 0, Status: matching})
+		}
+		rn.runCase(5_000_000+i, c, evs, root)
+		v.Count("crowd_histories", 1)
+	}
 	if v.Counters["failure"] == 0 || v.Counters["retry"] == 0 || v.Counters["nonmatching"] == 0 {
 		v.Inconclude("no exhaustion, no retry or no non-matching response observed in this batch")
 	}
